@@ -310,6 +310,63 @@ def _watch_comparisons(it):
     it.binop = binop
 
 
+def _callgraph(pu):
+    return {f: set(c.callee() for c in fd.find('CallExpr') if c.callee()) for f, fd in pu.functions.items()}
+
+
+def _global_writers(pu, names):
+    """functions of the unit that assign one of the named file-scope variables"""
+    out = set()
+    for f, fd in pu.functions.items():
+        for b in fd.walk():
+            if b.kind in ('BinaryOperator', 'CompoundAssignOperator') and (b.opcode or '').endswith('=') and b.opcode not in ('==', '!=', '<=', '>=') and b.inner:
+                l = b.inner[0].strip()
+                if l.kind == 'DeclRefExpr' and l.ref_name in names and l.ref_name in pu.globals and l.ref_id == pu.globals[l.ref_name].id:
+                    out.add(f)
+    return out
+
+
+def irrelevant_heavy_callees(pu, root, anchors, keep=(), cgr=None):
+    """the functions `root` reaches through calls (following only callees that are interpreted) which take no part in what the exploration observes -- they reach
+    none of the anchor functions -- and are not small (recursive, or more than a handful of functions below them): a constant folder, a type walker, ... They are
+    treated as opaque calls; helpers that lead to an anchor (a sub-parser, a scope function, a writer of the context variables) stay interpreted"""
+    cg = cgr if cgr is not None else _callgraph(pu)
+    reach = {}
+
+    def closure(f):
+        if f in reach:
+            return reach[f]
+        seen = set()
+        todo = [f]
+        while todo:
+            g = todo.pop()
+            for h in cg.get(g, ()):
+                if h not in seen:
+                    seen.add(h)
+                    todo.append(h)
+        reach[f] = seen
+        return seen
+    out = set()
+    seen = set()
+    todo = [root]
+    while todo:
+        g = todo.pop()
+        for h in sorted(cg.get(g, ())):
+            if h in seen or h in keep or h not in pu.functions:
+                continue
+            seen.add(h)
+            cl = closure(h)
+            if h in anchors or (cl & set(anchors)):
+                if h not in anchors:
+                    todo.append(h)
+                continue
+            if h in cl or len([x for x in cl if x in pu.functions]) > 6:
+                out.add(h)
+            else:
+                todo.append(h)
+    return out
+
+
 def explore_stmt(P, cat=None):
     """cat: a chibi.Catalogue -> the controlling expression of the enclosing switch gets a type out of the integer types of the catalogue"""
     from ..lib_parse import TokenModel
@@ -349,9 +406,13 @@ def explore_stmt(P, cat=None):
         ps = pu.params(name) if name in pu.functions else None
         if ps and (ps[0].type or '').replace(' ', '') == 'Token**':
             cuts[name] = h_sub(name)
-    tm = TokenModel(P, pu, ['stmt'],
-                    extra_opaque=['expr', 'const_expr', 'declspec', 'declaration', 'expr_stmt', 'compound_stmt', 'new_unique_name', 'enter_scope', 'leave_scope',
-                                  'is_typename', 'add_type', 'new_cast', 'asm_stmt', 'strndup', 'new_unary', 'copy_type'],
+    base_opaque = ['expr', 'const_expr', 'declspec', 'declaration', 'expr_stmt', 'compound_stmt', 'new_unique_name', 'enter_scope', 'leave_scope',
+                   'is_typename', 'add_type', 'new_cast', 'asm_stmt', 'strndup', 'new_unary', 'copy_type']
+    # a helper of stmt() that leads to a sub-parser / scope function / context variable is interpreted with it; anything else that is not small (eval(), ...) is an opaque call
+    cgr = _callgraph(pu)
+    heavy = irrelevant_heavy_callees(pu, 'stmt', set(['stmt', 'enter_scope', 'leave_scope']) | set(SUB_PARSERS) | _global_writers(pu, CTX_GLOBALS), keep=set(base_opaque) | {'equal', 'consume', 'skip'}, cgr=cgr)
+    tm = TokenModel(P, pu, ['stmt'] + sorted(f for f in cgr.get('stmt', ()) if f != 'stmt' and f in pu.functions and 'stmt' in cgr.get(f, ())),
+                    extra_opaque=base_opaque + sorted(heavy),
                     cut=cuts,
                     globals_={'brk_label': Sym('brk0', 'char *'), 'cont_label': Sym('cont0', 'char *'),
                               'current_switch': enclosing_switch,
@@ -443,6 +504,105 @@ def _cmp_truth(ctx, r):
     return None
 
 
+def case_value_origin(it, ctx, v, depth=0):
+    """where a value stored as a case bound comes from on this path: (set of const_expr results it is computed from, list of type operands of the calls in between)
+    -- the folded constant itself gives ({itself}, [])"""
+    raws = [e[4] for e in ctx.events if e[0] == 'call' and e[1] == 'const_expr']
+    seen = set()
+    src = []
+    tys = []
+    from ..interp import Term
+
+    def same(a, b):
+        if a is b:
+            return True
+        if isinstance(a, View) and isinstance(b, View):
+            return a.cell is b.cell
+        if isinstance(a, View) and isinstance(b, Obj):
+            return any(c is b for c in a.cell.cands)
+        if isinstance(b, View) and isinstance(a, Obj):
+            return any(c is a for c in b.cell.cands)
+        return False
+
+    def walk(x, d, arg=False):
+        if d > 8 or x is None or isinstance(x, (int, str)):
+            return
+        k = id(x.cell) if isinstance(x, View) else id(x)
+        if k in seen:
+            return
+        seen.add(k)
+        if any(x is r for r in raws):
+            src.append(x); return
+        if isinstance(x, View):
+            if any(isinstance(c, Obj) and c.tname == 'Type' for c in x.cell.cands) or x.cell is getattr(getattr(ctx, 'sw_ty', None), 'cell', None):
+                if arg:         # (a type that is a field of a node built on the way is the type the constant has before the conversion)
+                    tys.append(x)
+                return
+        if isinstance(x, Obj) and x.tname == 'Type':
+            if arg:
+                tys.append(x)
+            return
+        if isinstance(x, Term):
+            for a in x.args:
+                walk(a, d + 1)
+            return
+        for e in ctx.events:
+            if e[0] == 'call' and e[1] != 'const_expr' and e[4] is not None and same(e[4], x):
+                for a in (e[2] or []):
+                    walk(a, d + 1, True)
+        objs = [x] if isinstance(x, Obj) else ([c for c in x.cell.cands if isinstance(c, Obj)] if isinstance(x, View) else [])
+        for o in objs:
+            if not o.lazy:
+                for f, fv in list(o.fields.items()):
+                    walk(fv, d + 1)
+    walk(v, 0)
+    return src, tys
+
+
+def _type_sizes(it, ctx, t):
+    """the sizes a type operand can have on this path (None: unknown)"""
+    if isinstance(t, View):
+        out = set()
+        for c in t.cell.cands:
+            c = t.proj(c) if t.fn else c
+            if not isinstance(c, Obj) or not isinstance(c.fields.get('size'), int):
+                return None
+            out.add((c.meta.get('cat') or c.label or '?', c.fields['size']))
+        return out
+    if isinstance(t, Obj) and isinstance(t.fields.get('size'), int):
+        return {(t.meta.get('cat') or t.label or '?', t.fields['size'])}
+    return None
+
+
+def r03e_case_conversion(rep, it, ctx, node, where):
+    """R03.14 on one returning path of the case arm; returns {id(stored value): folded constant} for the bounds that are conversions of a folded constant to a type of at least int's size"""
+    alias = {}
+    raws = [e[4] for e in ctx.events if e[0] == 'call' and e[1] == 'const_expr']
+    if not raws:
+        return alias
+    for f in ('begin', 'end'):
+        v = node.fields.get(f)
+        if any(v is r for r in raws):
+            rep.ob('R03.14', 'parse.c:stmt:case:%s-not-converted-to-a-type-below-int' % f, True, '', where=where)
+            continue
+        src, tys = case_value_origin(it, ctx, v)
+        if len(src) != 1 or not tys:
+            continue            # not recognisably a conversion of the constant: R03.2 value-unnarrowed speaks
+        sizes = [_type_sizes(it, ctx, t) for t in tys]
+        if any(z is None for z in sizes):
+            rep.undecided('R03.14', 'parse.c:stmt:case:%s-conversion-type' % f, 'the case constant is converted to a type whose size is not known on this path', where=where)
+            continue
+        small = sorted(set(c for z in sizes for c, n in z if n < 4))
+        rep.ob('R03.14', 'parse.c:stmt:case:%s-not-converted-to-a-type-below-int' % f, not small,
+               'the constant of a case label is converted to the type %s before it is stored in the node (node.%s): the integer promotions are performed on the controlling expression and the case '
+               'constants are converted to the PROMOTED type (C11 6.8.4.2p5), so with a controlling expression of type char/short/_Bool a constant outside that type\'s range can never match '
+               '(`switch ((signed char)c) { case 200: ... }` is dead code); converted to the unpromoted type it wraps onto a value the expression can take (200 -> -56, _Bool: 2 -> 1) and the '
+               'switch jumps to a label the abstract machine never selects' % ('/'.join(small), f), where=where, facts={'path': ctx.trail[-6:]})
+        if not small:
+            alias[id(v)] = src[0]
+    return alias
+
+
 def r032_ranges(rep, it, res, where):
     """GNU case ranges `case B ... E:`: the range is diagnosed as empty exactly when E < B in the type of the controlling expression"""
     from ..lib_parse import spelled
@@ -460,6 +620,15 @@ def r032_ranges(rep, it, res, where):
             continue
         B, E = ce[0][4], ce[1][4]
         after = ctx.events[ctx.events.index(ce[1]) + 1:]
+        conv = {}          # a bound that went through a conversion call (to the promoted type: R03.14) stands for its constant
+        for e in after:
+            if e[0] == 'cmp':
+                for x in (e[2], e[3]):
+                    if not (x is B or x is E) and id(x) not in conv:
+                        it.ctx = ctx
+                        src, tys = case_value_origin(it, ctx, x)
+                        if len(src) == 1 and tys:
+                            conv[id(x)] = src[0]
         if out[0] == 'noreturn':
             # the diagnostic of the range itself: raised before anything else of the statement is parsed (not the `expected ":"` of skip())
             if any(e[0] in ('body', 'sub') for e in after) or (len(out) > 2 and out[2] and isinstance(out[2][0], str)):
@@ -492,6 +661,7 @@ def r032_ranges(rep, it, res, where):
                 continue
             a0, b0 = strip(a), strip(b)
             narrowed = a0 is not a or b0 is not b
+            a0, b0 = conv.get(id(a0), a0), conv.get(id(b0), b0)
             if a0 is E and b0 is B and op in ('<', '>='):
                 lt = t if op == '<' else not t
             elif a0 is B and b0 is E and op in ('>', '<='):
@@ -545,6 +715,8 @@ def r031(P, rep, cat=None):
     rep.rule('R03.7', 'only the body of a loop/switch is parsed with that construct\'s own break/continue/switch context: every other part of a statement (controlling expression, '
                       'for-init/increment, case value, returned expression) is handed to its parser with the context of the enclosing construct, because a break/continue/case '
                       'written there (GNU statement expression) is not in the body (C11 6.8.6.2/6.8.6.3, 6.8.4.2); and a for statement\'s scope is open while its header is parsed', floor=30)
+    rep.rule('R03.14', 'a case constant reaches the comparison as folded or converted to the promoted type of the controlling expression (C11 6.8.4.2p5): the parser never converts it to a type '
+                       'smaller than int (the unpromoted char/short/_Bool type of the controlling expression), which would wrap an out-of-range constant onto a value the expression can take', floor=2)
     from ..lib_parse import spelled, OTHER
     pu, tm, it, res = explore_stmt(P, cat)
     where = 'parse.c:%d' % pu.fn('stmt').line
@@ -697,8 +869,10 @@ def r031(P, rep, cat=None):
                 ce = [e for e in ctx.events if e[0] == 'call' and e[1] == 'const_expr']
                 vals = [e[4] for e in ce]
                 b, en = node.fields.get('begin'), node.fields.get('end')
+                alias = r03e_case_conversion(rep, it, ctx, node, where)
+
                 def is_raw(v):
-                    return any(v is x for x in vals)
+                    return any(v is x for x in vals) or id(v) in alias
                 if vals:
                     rep.ob('R03.2', 'parse.c:stmt:case:value-unnarrowed', is_raw(b) and is_raw(en),
                            'the case value folded by const_expr (64-bit) is stored as %r / %r: it passes through a narrower object, so `case 0x100000001L:` is compared as 1' % (b, en), where=where)
@@ -806,7 +980,7 @@ def r035(P, rep):
     it = tm.interp()
     from ..interp import _Ref, VarPlace
     where = 'parse.c:%d' % pu.fn('struct_union_decl').line
-    seen = 0
+    seen = n_tagged = 0
     for ctx, out in it.explore('struct_union_decl', lambda ctx: [_Ref(VarPlace({'rest': None}, 'rest')), tm.token('tok')]):
         if out[0] != 'ret':
             continue
@@ -818,16 +992,39 @@ def r035(P, rep):
         after = [e for e in ctx.events if e[0] == 'call'][i + 1:]
         outer = [e for e in after if e[1] == 'find_tag']
         inner = [e for e in after if e[1] == 'hashmap_get2' and getattr(e[2][0], 'label', None) == 'scope.tags']
+        # the tag's scope begins right after the tag (C11 6.2.1p7): while the member list is parsed the tag is in the innermost tag table (found there, or entered)
+        calls = [e for e in ctx.events if e[0] == 'call']
+        before = calls[:i]
+        tagtok = None
+        for e in calls:
+            if e[1] in ('push_tag_scope', 'find_tag') and e[2]:
+                tagtok = tagtok or _vlabel(it, e[2][0])
+            elif e[1] == 'hashmap_get2' and len(e[2]) > 2 and _loc_len(e[2][1:3]):
+                tagtok = tagtok or _loc_len(e[2][1:3])[0]
+        if tagtok is not None:
+            n_tagged += 1
+            def hit(e):
+                r = it.settle(e[4]) if isinstance(e[4], View) else e[4]
+                return isinstance(r, Obj) or (isinstance(r, Sym) and 0 in ctx.neq.get(r.key(), ()))
+            entered = [e for e in before if e[1] == 'push_tag_scope' and e[2] and _vlabel(it, e[2][0]) == tagtok]
+            found = [e for e in before if e[1] == 'hashmap_get2' and getattr(e[2][0], 'label', None) == 'scope.tags' and (_loc_len(e[2][1:3]) or (None,))[0] == tagtok and hit(e)]
+            rep.ob('R03.5', 'parse.c:struct_union_decl:tag-in-innermost-scope-while-members-are-parsed', bool(entered or found),
+                   'a struct/union definition with a tag parses its member list before the tag is in the innermost scope\'s tag table (neither found there nor entered by push_tag_scope): the scope of a tag begins '
+                   'just after its appearance in the specifier that declares it (C11 6.2.1p7), so a member `struct T *next` of a block-scope `struct T { ... }` must point to the type being defined; '
+                   'here it binds to a struct T of an enclosing scope (or to a fresh incomplete type that is never completed) and `x.next->b` is rejected or reads another type\'s layout',
+                   where=where, facts={'calls': names})
         rep.ob('R03.5', 'parse.c:struct_union_decl:definition-completes-innermost-tag-only', not outer,
                'a struct/union definition looks for an earlier declaration of its tag through find_tag (all enclosing scopes): a block-scope definition would overwrite a tag of an outer scope instead of declaring a new type (C11 6.7.2.3p4)', where=where, facts={'calls': names})
     if seen == 0:
         rep.undecided('R03.5', 'parse.c:struct_union_decl', 'no path reaches struct_members')
+    elif n_tagged == 0:
+        rep.undecided('R03.5', 'parse.c:struct_union_decl:tagged-definition', 'no path that parses a member list registers or looks up a tag', where=where)
 
 
 # ------------------------------------------------- point of declaration (C11 6.2.1p7) ---
 DECL_PARSERS = ('declarator', 'gvar_initializer', 'lvar_initializer', 'initializer', 'compound_stmt', 'const_expr', 'expr', 'assign', 'conditional',
                 'declspec', 'typename', 'stmt', 'declaration', 'struct_members', 'enum_specifier')
-DECL_OPAQUE = ('hashmap_put', 'hashmap_put2', 'strndup', 'compute_vla_size', 'new_unary', 'new_binary', 'new_vla_ptr', 'new_alloca', 'new_var_node', 'new_node',
+DECL_OPAQUE = ('hashmap_put', 'hashmap_put2', 'hashmap_get', 'hashmap_get2', 'strndup', 'compute_vla_size', 'new_unary', 'new_binary', 'new_vla_ptr', 'new_alloca', 'new_var_node', 'new_node',
                'new_unique_name', 'find_func', 'find_tag', 'push_tag_scope', 'enum_type', 'resolve_goto_labels', 'pointer_to', 'array_of', 'strlen',
                'enter_scope', 'leave_scope', 'is_typename', 'is_function', 'add_type', 'parse_typedef', 'function', 'global_variable', 'format', 'new_num')
 
@@ -879,6 +1076,14 @@ def decl_events(P, pu, fname, mk_rest, loop_limit=2, max_paths=6000):
                 if m and m.endswith('.vars'):
                     k = args[1]
                     evs.append(('insert', 'name', spelled_from.get(k.name) if isinstance(k, Sym) else None, k, e[3]))
+            elif name in ('hashmap_get', 'hashmap_get2'):
+                # a lookup in the innermost scope's own table that hits: the identifier is already bound in the innermost scope
+                m = getattr(args[0], 'label', None) if args else None
+                r = it.settle(res) if isinstance(res, View) else res
+                hit = isinstance(r, Obj) or (isinstance(r, Sym) and 0 in ctx.neq.get(r.key(), ()))
+                if m == 'scope.vars' and hit and len(args) > 1 and isinstance(args[1], Sym):
+                    k = args[1].name
+                    evs.append(('bound', 'name', k[:-len('.loc')] if k.endswith('.loc') else spelled_from.get(k), args[1], e[3]))
             elif name == 'declarator':
                 evs.append(('declarator', _vlabel(it, res), e[3]))
             elif name in ('enter_scope', 'leave_scope'):
@@ -889,6 +1094,17 @@ def decl_events(P, pu, fname, mk_rest, loop_limit=2, max_paths=6000):
                 evs.append(('call', name, res, e[3]))
         out.append((ctx, o, evs))
     return it, out
+
+
+def _at_file_scope(it, ctx):
+    """the path established that the current scope is the file scope (scope->next is null)"""
+    sc = ctx.globals.get('scope')
+    sc = it.settle(sc) if isinstance(sc, View) else sc
+    if not isinstance(sc, Obj) or 'next' not in sc.fields:
+        return False
+    nx = sc.fields['next']
+    nx = it.settle(nx) if isinstance(nx, View) else nx
+    return isinstance(nx, int) and not isinstance(nx, bool) and nx == 0
 
 
 def r038(P, rep):
@@ -944,7 +1160,7 @@ def r038(P, rep):
                 if e[0] in ('declarator', 'end'):
                     if cur is not None:
                         n_d += 1
-                        ins = [x for x in evs[cur[1]:i] if x[0] == 'insert' and x[2] == cur[0] + '.name']
+                        ins = [x for x in evs[cur[1]:i] if x[0] in ('insert', 'bound') and x[2] == cur[0] + '.name']
                         rep.ob('R03.8', 'parse.c:%s:identifier-declared-before-%s' % (fname, 'next-declarator' if e[0] == 'declarator' else 'end-of-declaration'), len(ins) >= 1,
                                '%s() finishes a declarator without entering the declared identifier into the scope before %s (C11 6.2.1p7: the scope begins just after the completion of the declarator)'
                                % (fname, 'the next declarator of the list is parsed' if e[0] == 'declarator' else 'it returns'), where='parse.c:%d' % evs[cur[1]][2], facts={'order': [(x[0], x[1], x[2]) for x in evs]})
@@ -963,10 +1179,21 @@ def r038(P, rep):
     # --- (c) function definitions -------------------------------------------------------------
     it, paths = decl_events(P, pu, 'function', lambda tm, ctx, rest: [tm.token('tok'), Obj('Type', lazy=True, label='basety'), Obj('VarAttr', lazy=True, label='attr')], loop_limit=1)
     where = 'parse.c:%d' % pu.fn('function').line
-    n_body = 0
+    n_body = n_decl = 0
     for ctx, o, evs in paths:
         bodies = [i for i, e in enumerate(evs) if e[0] == 'parse' and e[1] != 'declarator']
         if not bodies:
+            d = [e for e in evs if e[0] == 'declarator']
+            if o[0] == 'ret' and d and d[-1][1]:
+                # a function declaration without a body: it may stand in a block (C11 6.7.1p7, 6.2.1p4), and then it is the innermost declaration of the identifier
+                it.ctx = ctx
+                own = [e for e in evs if e[0] in ('insert', 'bound') and e[2] == d[-1][1] + '.name']
+                n_decl += 1
+                rep.ob('R03.8', 'parse.c:function:declaration-binds-name-in-innermost-scope', bool(own) or _at_file_scope(it, ctx),
+                       'function() completes a function declaration (no body) on a path that neither enters the identifier into the innermost scope nor has established that the innermost scope is the file scope '
+                       '(%s): a block-scope declaration `int f(void);` must make f denote the function until the end of the block (C11 6.2.1p4, p7), but when an enclosing block or the parameter list declares '
+                       'another f, every use of f in the block still binds to that outer object' % ('an earlier declaration was found by find_func(), which looks at the file scope only' if any(e[0] == 'call' and e[1] == 'find_func' for e in evs) else 'nothing is inserted'),
+                       where=where, facts={'order': [(x[0], x[1], x[2]) for x in evs]})
             continue
         b = bodies[0]
         n_body += 1
@@ -992,6 +1219,8 @@ def r038(P, rep):
                % [(x[0], x[1]) for x in evs], where=where)
     if n_body == 0:
         rep.undecided('R03.8', 'parse.c:function:body', 'no path of function() parses a body', where=where)
+    if n_decl == 0:
+        rep.undecided('R03.8', 'parse.c:function:declaration', 'no path of function() completes a declaration without a body', where=where)
 
     # --- (d) block items are parsed inside the block's scope -----------------------------------------
     it, paths = decl_events(P, pu, 'compound_stmt', lambda tm, ctx, rest: [rest, tm.token('tok')], loop_limit=1)
@@ -1577,7 +1806,11 @@ def run(P, rep, tier):
                        'their order on every path is compared with the point of declaration C11 6.2.1p7 prescribes. R03.9 replays the enter/leave_scope calls of every path of stmt() as a scope stack and '
                        'requires every part of a selection/iteration statement to be parsed inside a scope of that statement (and no other statement form to open one). R03.2 also decides the emptiness test '
                        'of GNU case ranges per type class of the controlling expression (operand signedness of the comparison as clang types it). R03.10 explores every Node*-returning function of parse.c '
-                       'with the plain node constructors interpreted and counts, in the tree each path returns, the links to every operand tree it was given: more than one link = evaluated more than once.')
+                       'with the plain node constructors interpreted and counts, in the tree each path returns, the links to every operand tree it was given: more than one link = evaluated more than once. '
+                       'R03.14 follows each case bound stored in the node back through the calls of the path to the folded constant and the type operands of those calls: a conversion is allowed only to a type '
+                       'that has at least int\'s size on that path (the promoted type), never to the controlling expression\'s own char/short/_Bool type. R03.8 also requires every completed declarator '
+                       '(objects, typedefs, block-scope `extern`, function declarations without body) to leave the identifier bound in the innermost scope (entered there, found there, or the path has '
+                       'established that the innermost scope is the file scope); R03.5 requires a struct/union tag to be in the innermost tag table while its member list is parsed.')
     rep.assumptions += ['children and sub-statements satisfy their contracts (structural induction)', 'the order/placement obligations of R03.3 accept either NaN treatment of a floating truth test; the NaN treatment itself is R03.13']
     r033(cg, rep)
     r033_switch(cg, rep)
